@@ -345,8 +345,16 @@ static std::string falsify(World &W, const ProofSpec &ps, Statement &st, int64_t
 			if (n == 0) return "";
 			size_t i = (size_t)pos % n, j = (size_t)(pos / 7 + 1) % n;
 			TMCG_Stack<VTMF_Card> t;
-			switch (sub % 7)
+			switch (sub % 9)
 			{
+				case 7: // a component of an output card replaced by its negative p - x: order 2q, outside the group,
+				case 8: // while its q-th power relations to the rest of the statement survive with probability 1/4
+				{
+					VTMF_Card c = st.sout[i]; mpz_ptr x = ((sub % 9) == 7) ? c.c_2 : c.c_1;
+					mpz_sub(x, W.P[0].vtmf->p, x);
+					for (size_t q = 0; q < n; q++) t.push(q == i ? c : st.sout[q]);
+					st.sout = t; what = std::string("output stack with ") + (((sub % 9) == 7) ? "c_2" : "c_1") + " of card " + std::to_string(i) + " replaced by its negative (outside the group)"; return "C04";
+				}
 				case 0: // substituted: a fresh masking of an open card of another type
 				{
 					VTMF_Card c, cc; VTMF_CardSecret cs;
